@@ -563,7 +563,10 @@ def cases(rng, tier):
     for i in range(n_val):
         yield {"k": "val", "e": _gen_expr(rng, rng.choice([2, 3, 3, 4, 4, 5]))}
     for i in range(n_load):
-        yield {"k": "load", "e": _gen_expr(rng, rng.choice([1, 2, 3, 4]))}
+        sp = {"k": "load", "e": _gen_expr(rng, rng.choice([1, 2, 3, 4]))}
+        if rng.random() < 0.25:
+            sp["prev"] = _gen_expr(rng, rng.choice([1, 2, 3]))
+        yield sp
     for i in range(n_dec):
         e = B.gen_value(rng, rng.choice([1, 2, 3]))
         try:
@@ -699,10 +702,13 @@ def _try_kind(f):
         return A("Exception")
 
 
-def _load(e):
-    """Run `dfg.load(value)`; -> dict of the real objects or an observation string."""
+def _load(e, prev=None):
+    """Run `dfg.load(value)`; -> dict of the real objects or an observation string.  With `prev`: the Const
+    node first held the value `prev`, was inspected (static port, serialisation), and then got `e` assigned to
+    its `val` before being loaded: what the node offers must follow the value it holds at the time."""
     from hugr import ops
     from hugr.build.dfg import Dfg
+    from hugr.hugr.node_port import OutPort
 
     v, bad = _build(e)
     if v is None:
@@ -710,7 +716,18 @@ def _load(e):
     d = Dfg()
     try:
         n_before = len(d.hugr)
-        load_node = d.load(v)
+        vp = _build(prev)[0] if prev is not None else None
+        if vp is not None:
+            cn = d.add_const(vp)
+            for f in (lambda: d.hugr[cn].op.port_kind(OutPort(cn, 0)), lambda: d.hugr.to_json(), lambda: d.hugr[cn].op.num_out):
+                try:
+                    f()
+                except Exception:  # noqa: BLE001
+                    pass
+            d.hugr[cn].op.val = v
+            load_node = d.load(cn)
+        else:
+            load_node = d.load(v)
     except Exception:  # noqa: BLE001
         return "(error Exception)"
     h = d.hugr
@@ -719,10 +736,10 @@ def _load(e):
     return {"v": v, "h": h, "load_node": load_node, "load_op": load_op, "consts": consts, "new": len(h) - n_before}
 
 
-def _obs_load(e):
+def _obs_load(e, prev=None):
     from hugr.hugr.node_port import InPort, OutPort
 
-    r = _load(e)
+    r = _load(e, prev)
     if isinstance(r, str):
         return r
     h, load_node, load_op = r["h"], r["load_node"], r["load_op"]
@@ -786,7 +803,7 @@ def run_impl(spec):
     if k == "val":
         return _obs_val(spec["e"])
     if k == "load":
-        return _obs_load(spec["e"])
+        return _obs_load(spec["e"], spec.get("prev"))
     if k == "dec":
         return _obs_dec(spec["j"])
     if k == "inh":
@@ -990,12 +1007,12 @@ def _oracle_val(e):
     return fails
 
 
-def _oracle_load(e):
+def _oracle_load(e, prev=None):
     from hugr import ops, tys
     from hugr.hugr.node_port import InPort, OutPort
 
     fails: list[Failure] = []
-    r = _load(e)
+    r = _load(e, prev)
     if isinstance(r, str):
         return fails
     h, load_node, load_op, v = r["h"], r["load_node"], r["load_op"], r["v"]
@@ -1057,7 +1074,7 @@ def oracle(spec):
     if k == "val":
         return _oracle_val(spec["e"])
     if k == "load":
-        return _oracle_load(spec["e"])
+        return _oracle_load(spec["e"], spec.get("prev"))
     return []
 
 
